@@ -295,7 +295,8 @@ func C10Tokens(src string) []string {
 
 var c10InsertTokens = []string{"(", ")", "[", "]", "{", "}", ",", ";", ".", "::", "!", "-", "&&", "||", "==", "in", "is", "has", "like", "if", "then", "else",
 	"true", "principal", "context", "foo", "9223372036854775808", "\"\\u{110000}\"", "\"\\", "\"", "@", "when", "unless", "permit", "forbid", "__cedar", "*", "+",
-	"ip", "decimal", "lessThan", "isEmpty", "contains", "Set", "<", ">", "entity", "action", "type", "namespace", "appliesTo", "?", ":", "=", "enum", "tags", "\x00", "\xff", "\u2028"}
+	"ip", "decimal", "lessThan", "isEmpty", "contains", "Set", "<", ">", "entity", "action", "type", "namespace", "appliesTo", "?", ":", "=", "enum", "tags", "\x00", "\xff", "\u2028",
+	"/*", "*/", "//", "/**", "/", "/* *", "/**/"}
 
 // C10TokenMutant applies one random token-level mutation; returns the new text and the mutation kind.
 func C10TokenMutant(r *rand.Rand, toks []string) (string, string) {
@@ -515,7 +516,7 @@ func C10FindForm(name string) *C10DeepForm {
 			return &C10DeepForms[i]
 		}
 	}
-	return nil
+	return C10FindRunForm(name) // the long-run forms of gen_c10b.go (names are disjoint)
 }
 
 // ---------- raw nodeJSON trees for the WF correspondence ----------
